@@ -173,8 +173,9 @@ def run(ctx):
         for (_, s), run_ in zip(grp, st["runs"]):
             ctx.log("attack %-20s on real nodes: %d/%d steps executed, %d refused, commit rounds %s" % (
                 s["weaken"], run_["executed"], run_["steps"], run_["refused"], run_["commit_rounds"]))
-        report_agreement(ctx, rep, tpath, "attack schedule", lambda i, grp=grp: {"kind": "attack script", "weaken": grp[i][1]["weaken"] if i < len(grp) else None,
-                                                                      "acts": grp[i][1]["acts"] if i < len(grp) else None})
+        report_agreement(ctx, rep, tpath, "attack schedule", lambda i, grp=grp, n_=n_, stakes_=stakes_, honest_=honest_: {
+            "kind": "attack script", "weaken": grp[i][1]["weaken"] if i < len(grp) else None, "n": n_, "stakes": list(stakes_), "honest": list(honest_),
+            "acts": grp[i][1]["acts"] if i < len(grp) else None})
     # ---- 3. schedules of the unweakened model on real nodes
     for name, (behs, n, stakes, honest) in scheds.items():
         behs = behs[: (25 if q else 400)]
@@ -184,7 +185,8 @@ def run(ctx):
         ex = sum(r_["executed"] for r_ in st["runs"])
         rf = sum(r_["refused"] for r_ in st["runs"])
         ctx.log("schedules %s: %d replayed, %d steps executed, %d refused" % (name, st["scripts"], ex, rf))
-        report_agreement(ctx, rep, tpath, "model schedule " + name, lambda i: {"kind": "model schedule", "config": name, "acts": json.loads(behs[i])["acts"] if i < len(behs) else None})
+        report_agreement(ctx, rep, tpath, "model schedule " + name, lambda i, n=n, stakes=stakes, honest=honest, behs=behs: {
+            "kind": "model schedule", "config": name, "n": n, "stakes": stakes, "honest": honest, "acts": json.loads(behs[i])["acts"] if i < len(behs) else None})
     # ---- 4. randomised executions
     for tag, args, runs in [("crash", ["n=4", "steps=500", "crash=2", "crash_at=30", "p_timer=0.05", "p_drop=0.05", "maxround=30"], 3 if q else 60),
                             ("n7", ["n=7", "steps=900", "crash=1,5", "crash_at=60", "p_timer=0.04", "p_drop=0.04", "maxround=25"], 2 if q else 30),
